@@ -5,6 +5,7 @@ import (
 	"fmt"
 	"os"
 	"path/filepath"
+	"sort"
 	"strings"
 
 	"github.com/grafana/cog/internal/ast"
@@ -115,8 +116,22 @@ func (pipeline *Pipeline) interpolateParameters() {
 func (pipeline *Pipeline) interpolate(input string) string {
 	interpolated := input
 
-	for key, value := range pipeline.Parameters {
-		interpolated = strings.ReplaceAll(interpolated, "%"+key+"%", value)
+	// a parameter may refer to other parameters: they are replaced in a fixed
+	// order (not the iteration order of the map) until nothing changes any more
+	keys := make([]string, 0, len(pipeline.Parameters))
+	for key := range pipeline.Parameters {
+		keys = append(keys, key)
+	}
+	sort.Strings(keys)
+
+	for range keys {
+		before := interpolated
+		for _, key := range keys {
+			interpolated = strings.ReplaceAll(interpolated, "%"+key+"%", pipeline.Parameters[key])
+		}
+		if interpolated == before {
+			break
+		}
 	}
 
 	return interpolated
